@@ -286,10 +286,40 @@ class Engine:
         if k == 'UnaryExprOrTypeTraitExpr' and 'c' in e:
             return Poly.const(e['c'])
         if 'callee' in e:
+            v = self._inline_pure(e, st)
+            if v is not None:
+                return v
             if e.get('ot', {}).get('u') or e.get('t', {}).get('u'):
                 return self.sym(short(e['callee']), e.get('t'))
             return None
         return None
+
+    def _inline_pure(self, e, st):
+        """value of a call of a repository function whose whole body is `return <expression over its parameters and constants>`
+        (a helper extracted from a size computation): the expression evaluated with the arguments of this call"""
+        fl = self.facts.fns.get(e.get('callee'))
+        if not fl or fl[0].tree is None or not fl[0].file.startswith(build.REPO):
+            return None
+        cf = fl[0]
+        body = cf.tree.get('body') if cf.tree.get('k') == 'CompoundStmt' else None
+        if not body or len(body) != 1 or body[0].get('k') != 'ReturnStmt' or body[0].get('e') is None:
+            return None
+        ret = body[0]['e']
+        pids = {p['id'] for p in cf.params}
+        for y in walk(ret):
+            if 'callee' in y or y.get('k') in ('MemberExpr', 'ArraySubscriptExpr', 'UnaryOperator'):
+                return None
+            if y.get('k') == 'DeclRefExpr' and y.get('id') not in pids and 'c' not in y:
+                return None
+        args = e.get('a') or []
+        if len(args) != len(cf.params):
+            return None
+        s2 = State(Poly.const(0))
+        for p_, a in zip(cf.params, args):
+            v = self.ev(a, st)
+            if v is not None:
+                s2.env[('v', p_['id'])] = self.fit(v, p_.get('t'))
+        return self.fit(self.ev(ret, s2), e.get('t'))
 
     def cond(self, c, st):
         """True / False / None"""
